@@ -160,7 +160,9 @@ namespace nmtools::functional
                     , "expect operand to be pointer, number or view for get_compute_graph"
                 );
                 #if 1
-                if constexpr (is_broadcast_view_v<operand_t>) {
+                // NOTE: only ufuncs with more than one operand wrap their operands in broadcast_to,
+                // a broadcast_to under a unary ufunc was written by the user and is a node of its own
+                if constexpr (is_broadcast_view_v<operand_t> && (N > 1)) {
                     // broadccast_to has exactly 1 operand
                     // effectively skip broadcast
                     // TODO: refactor functional ufuncs
